@@ -285,6 +285,10 @@ func genTree(t *rapid.T) (files, dirs, empty []string) {
 			}
 			name = d + rapid.SampledFrom([]string{"!", " ", "-", ".", "+", "-b", ".txt"}).Draw(t, "collide_tail")
 		}
+		if parent != "" && rapid.IntRange(0, 11).Draw(t, "nested_tmp_name") == 0 {
+			// below the top level the bookkeeping directory's name is a name like any other
+			name = tmpDir
+		}
 		p := name
 		if parent != "" {
 			p = parent + "/" + name
